@@ -13,6 +13,7 @@ import (
 type dgram struct {
 	b    []byte
 	from netip.AddrPort
+	to   netip.Addr // the address it was sent to (for IP_PKTINFO)
 }
 
 // UDPConn is a simulated UDP socket (bound, optionally connected).  It
@@ -34,6 +35,7 @@ type UDPConn struct {
 	icmpErr bool
 	reuse   bool
 	sendCtr map[string]uint64
+	pktinfo bool // IP_PKTINFO / IPV6_RECVPKTINFO is set
 
 	// OnRecv is called on the scheduler when a datagram is queued.
 	OnRecv func(c *UDPConn, b []byte, from netip.AddrPort)
@@ -78,23 +80,40 @@ func (c *UDPConn) SetWriteDeadline(t time.Time) error {
 }
 
 func (c *UDPConn) recv(p []byte) (int, netip.AddrPort, error) {
+	n, from, _, err := c.recv2(p)
+	return n, from, err
+}
+
+// EnablePktInfo makes the socket deliver the destination address of every
+// datagram as ancillary data (see MakePktInfo).
+func (c *UDPConn) EnablePktInfo() { c.mu.Lock(); c.pktinfo = true; c.mu.Unlock() }
+
+// MakePktInfo and ParsePktInfo build / parse the ancillary data; they are set
+// by the udpcmsg facade to the repository's own (Linux) encoders, so that the
+// bytes are what a kernel would hand over.
+var (
+	MakePktInfo  func(a netip.Addr) []byte
+	ParsePktInfo func(oob []byte) (netip.Addr, error)
+)
+
+func (c *UDPConn) recv2(p []byte) (int, netip.AddrPort, netip.Addr, error) {
 	for {
 		c.mu.Lock()
 		if c.closed {
 			c.mu.Unlock()
-			return 0, netip.AddrPort{}, opErr("read", "udp", net.ErrClosed)
+			return 0, netip.AddrPort{}, netip.Addr{}, opErr("read", "udp", net.ErrClosed)
 		}
 		if c.icmpErr {
 			c.icmpErr = false
 			c.mu.Unlock()
-			return 0, netip.AddrPort{}, opErr("read", "udp", sysErr("recvfrom", syscall.ECONNREFUSED))
+			return 0, netip.AddrPort{}, netip.Addr{}, opErr("read", "udp", sysErr("recvfrom", syscall.ECONNREFUSED))
 		}
 		if len(c.q) > 0 {
 			d := c.q[0]
 			c.q = c.q[1:]
 			c.mu.Unlock()
 			n := copy(p, d.b) // excess is discarded, as recvfrom does
-			return n, d.from, nil
+			return n, d.from, d.to, nil
 		}
 		var tc <-chan time.Time
 		var tm *time.Timer
@@ -102,7 +121,7 @@ func (c *UDPConn) recv(p []byte) (int, netip.AddrPort, error) {
 			d := time.Until(c.rdl)
 			if d <= 0 {
 				c.mu.Unlock()
-				return 0, netip.AddrPort{}, opErr("read", "udp", errTimeout)
+				return 0, netip.AddrPort{}, netip.Addr{}, opErr("read", "udp", errTimeout)
 			}
 			tm = time.NewTimer(d)
 			tc = tm.C
@@ -121,15 +140,27 @@ func (c *UDPConn) recv(p []byte) (int, netip.AddrPort, error) {
 
 // TryRecv returns a queued datagram without blocking (used by the batch reader).
 func (c *UDPConn) TryRecv(p []byte) (int, netip.AddrPort, bool) {
+	n, from, _, ok := c.TryRecv2(p)
+	return n, from, ok
+}
+
+// TryRecv2 also returns the datagram's destination address.
+func (c *UDPConn) TryRecv2(p []byte) (int, netip.AddrPort, netip.Addr, bool) {
 	c.mu.Lock()
 	defer c.mu.Unlock()
 	if c.closed || len(c.q) == 0 {
-		return 0, netip.AddrPort{}, false
+		return 0, netip.AddrPort{}, netip.Addr{}, false
 	}
 	d := c.q[0]
 	c.q = c.q[1:]
-	return copy(p, d.b), d.from, true
+	return copy(p, d.b), d.from, d.to, true
 }
+
+// Recv2 is ReadFromUDPAddrPort plus the destination address.
+func (c *UDPConn) Recv2(p []byte) (int, netip.AddrPort, netip.Addr, error) { return c.recv2(p) }
+
+// PktInfo reports whether ancillary data was asked for.
+func (c *UDPConn) PktInfo() bool { c.mu.Lock(); defer c.mu.Unlock(); return c.pktinfo }
 
 func (c *UDPConn) Read(p []byte) (int, error) {
 	n, _, err := c.recv(p)
@@ -149,8 +180,12 @@ func (c *UDPConn) ReadFromUDPAddrPort(p []byte) (int, netip.AddrPort, error) {
 }
 
 func (c *UDPConn) ReadMsgUDPAddrPort(b, oob []byte) (n, oobn, flags int, addr netip.AddrPort, err error) {
-	n, addr, err = c.recv(b)
-	return n, 0, 0, addr, err
+	var to netip.Addr
+	n, addr, to, err = c.recv2(b)
+	if err == nil && c.PktInfo() && MakePktInfo != nil && to.IsValid() {
+		oobn = copy(oob, MakePktInfo(to))
+	}
+	return n, oobn, 0, addr, err
 }
 
 func (c *UDPConn) Write(p []byte) (int, error) {
@@ -171,11 +206,26 @@ func (c *UDPConn) WriteTo(p []byte, addr net.Addr) (int, error) {
 func (c *UDPConn) WriteToUDPAddrPort(p []byte, ap netip.AddrPort) (int, error) { return c.send(p, ap) }
 
 func (c *UDPConn) WriteMsgUDPAddrPort(b, oob []byte, ap netip.AddrPort) (n, oobn int, err error) {
-	n, err = c.send(b, ap)
+	var from netip.Addr
+	if len(oob) > 0 && ParsePktInfo != nil {
+		// IP_PKTINFO on a send chooses the source address
+		a, perr := ParsePktInfo(oob)
+		if perr != nil {
+			return 0, 0, opErr("write", "udp", sysErr("sendmsg", syscall.EINVAL))
+		}
+		if a.IsValid() && !a.IsUnspecified() {
+			from = a
+		}
+	}
+	n, err = c.sendFrom(b, ap, from)
 	return n, len(oob), err
 }
 
 func (c *UDPConn) send(p []byte, to netip.AddrPort) (int, error) {
+	return c.sendFrom(p, to, netip.Addr{})
+}
+
+func (c *UDPConn) sendFrom(p []byte, to netip.AddrPort, from netip.Addr) (int, error) {
 	c.mu.Lock()
 	if c.closed {
 		c.mu.Unlock()
@@ -201,6 +251,9 @@ func (c *UDPConn) send(p []byte, to netip.AddrPort) (int, error) {
 
 	w, s := c.w, c.w.S
 	src := netip.AddrPortFrom(c.local.Addr().Unmap(), c.local.Port())
+	if from.IsValid() {
+		src = netip.AddrPortFrom(from.Unmap(), src.Port())
+	}
 	if src.Addr().IsUnspecified() {
 		if to.Addr().Is4() {
 			src = netip.AddrPortFrom(w.ProxyAddr4, src.Port())
@@ -283,7 +336,7 @@ func (w *World) deliverDgram(from *UDPConn, fromConnected bool, src, to netip.Ad
 		dst.mu.Unlock()
 		return
 	}
-	dst.q = append(dst.q, dgram{b: b, from: seen})
+	dst.q = append(dst.q, dgram{b: b, from: seen, to: to.Addr()})
 	dst.signalLocked()
 	cb := dst.OnRecv
 	dst.mu.Unlock()
